@@ -208,6 +208,8 @@ impl Drop for PageReadGuard<'_> {
         // sole owner of this read lock and must manually release it here.
         // The entry Arc keeps the lock data alive until after this unlock.
         unsafe { self.entry.lock.force_unlock_read() };
+        #[cfg(kahflane_turdb_verif)]
+        crate::verif::point("plock.unlocked", &[self.page_id.table_id as i64, self.page_id.page_no as i64, 0]);
         self.shard.try_cleanup(self.page_id, &self.entry);
     }
 }
@@ -225,6 +227,8 @@ impl Drop for PageWriteGuard<'_> {
         // sole owner of this write lock and must manually release it here.
         // The entry Arc keeps the lock data alive until after this unlock.
         unsafe { self.entry.lock.force_unlock_write() };
+        #[cfg(kahflane_turdb_verif)]
+        crate::verif::point("plock.unlocked", &[self.page_id.table_id as i64, self.page_id.page_no as i64, 1]);
         self.shard.try_cleanup(self.page_id, &self.entry);
     }
 }
@@ -360,6 +364,8 @@ impl PageLockManager {
         let page_id = PageId::new(table_id, page_no);
         let shard = &self.page_shards[page_id.shard_index()];
         let entry = shard.get_or_create(page_id);
+        #[cfg(kahflane_turdb_verif)]
+        crate::verif::point("plock.got_entry", &[table_id as i64, page_no as i64, 0]);
 
         let contended = entry.lock.try_read().is_none();
 
@@ -379,6 +385,8 @@ impl PageLockManager {
         let page_id = PageId::new(table_id, page_no);
         let shard = &self.page_shards[page_id.shard_index()];
         let entry = shard.get_or_create(page_id);
+        #[cfg(kahflane_turdb_verif)]
+        crate::verif::point("plock.got_entry", &[table_id as i64, page_no as i64, 1]);
 
         let contended = entry.lock.try_write().is_none();
 
@@ -406,6 +414,14 @@ impl PageLockManager {
 
     pub fn stats(&self) -> &LockStats {
         &self.stats
+    }
+
+    /// (page lock entries, table lock entries) currently in the lock tables.
+    #[cfg(kahflane_turdb_verif)]
+    pub fn verif_table_sizes(&self) -> (usize, usize) {
+        let pages = self.page_shards.iter().map(|s| s.locks.lock().len()).sum();
+        let tables = self.table_shards.iter().map(|s| s.locks.read().len()).sum();
+        (pages, tables)
     }
 }
 
